@@ -83,7 +83,8 @@ func splitSubPath(src string) (string, string) {
 
 	// URL might contains another url in query parameters
 	stop := len(src)
-	if idx := strings.Index(src, "?"); idx > -1 {
+	if idx := strings.IndexAny(src, "?#"); idx > -1 {
+		// Neither a query string nor a URL fragment is part of the path.
 		stop = idx
 	}
 
@@ -105,8 +106,8 @@ func splitSubPath(src string) (string, string) {
 	src = src[:idx]
 
 	// Next, check if we have query parameters and push them onto the
-	// URL.
-	if idx = strings.Index(subdir, "?"); idx > -1 {
+	// URL. (A "?" that follows a "#" belongs to a URL fragment instead.)
+	if idx = strings.IndexAny(subdir, "?#"); idx > -1 && subdir[idx] == '?' {
 		query := subdir[idx:]
 		subdir = subdir[:idx]
 		src += query
